@@ -45,6 +45,14 @@ def build_unit(name, unit):
         if not re.search(pattern, src_of(rel)):
             raise X.ExtractError(f"expected text not found in {rel}: {pattern!r} ({why})")
         log["rewrites"].append(f"checked {rel} still contains /{pattern}/ ({why})")
+    for rel, impl, fname, sha, why in unit.get("pinned_fns", []):
+        # a repository function whose contract this unit ASSUMES and nobody verifies: its text is pinned, so that
+        # an edit there makes the unit UNDECIDED (then the native search runs) instead of staying silently green
+        f = X.find_method(src_of(rel), impl, fname) if impl else X.find_fn(src_of(rel), fname)
+        got = _sha(re.sub(r"\s+", " ", (f["sig"] + f["body"]).strip()))
+        if sha and got != sha:
+            raise X.ExtractError(f"pinned fn {impl + '::' if impl else ''}{fname} changed (sha {got}, expected {sha}): its assumed contract must be re-validated ({why})")
+        log["rewrites"].append(f"pinned (unverified, contract assumed) {impl + '::' if impl else ''}{fname} in {rel}: text sha {got} ({why})")
     consts = {}
     for cname, (rel, pattern) in unit.get("consts", {}).items():
         ty, val = X.find_const(src_of(rel or main_src), cname)
